@@ -327,7 +327,7 @@ def run(ctx):
     elements, isotopes = table_keys()
     ctx.extra['table_elements'] = len(elements) if ctx.shard == 0 else 0
     ctx.extra['table_isotope_keys'] = len(isotopes) if ctx.shard == 0 else 0
-    for i in range(ctx.n(100000, 4000000)):
+    for i in range(ctx.n(250000, 4000000)):
         if i % 50 == 49:
             glycan_hard(ctx, st, pt, ctx.rng)
         elif i % 4 == 3:
